@@ -156,6 +156,40 @@ func init() {
 		parts, _ := args[0].([]value)
 		return hashOf(fr, parts)
 	}
+	// CreateAddress(b, nonce) = keccak(rlp([b, nonce]))[12:]  (RLP is reflection-driven in go-ethereum)
+	e[c+"CreateAddress"] = func(fr *frame, args []value) value {
+		addr := []value(args[0].(array))
+		var h array
+		raw, ok := bytesAllConcrete(addr)
+		if n, okn := args[1].(uint64); ok && okn {
+			var nb []byte
+			switch {
+			case n == 0:
+				nb = []byte{0x80}
+			case n < 0x80:
+				nb = []byte{byte(n)}
+			default:
+				var be []byte
+				for x := n; x > 0; x >>= 8 {
+					be = append([]byte{byte(x)}, be...)
+				}
+				nb = append([]byte{0x80 + byte(len(be))}, be...)
+			}
+			payload := append(append([]byte{0x80 + 20}, raw...), nb...)
+			enc := append([]byte{0xc0 + byte(len(payload))}, payload...)
+			hh := keccak256(enc)
+			h = make(array, 32)
+			for k := range hh {
+				h[k] = hh[k]
+			}
+		} else {
+			in := append(append([]value{}, addr...), args[1])
+			h = fr.i.keccakSym(fr, in)
+		}
+		out := make(array, 20)
+		copy(out, h[12:])
+		return out
+	}
 	e[c+"Keccak256"] = func(fr *frame, args []value) value {
 		parts, _ := args[0].([]value)
 		h := hashOf(fr, parts)
